@@ -23,39 +23,43 @@ class RegexUse:
 
 
 def regex_uses(fn, folder):
-    """All regex applications in `fn`: (compiled local).method(...),
-    MODULE_CONST.method(...), re.method(pattern, ...)."""
+    """All regex applications in `fn`: (compiled local).method(...), MODULE_CONST.method(...),
+    self.CONST / cls.CONST .method(...), re.method(pattern, ...).  Receivers and pattern
+    arguments are first normalised through the function's single-assignment locals, so a
+    pattern text held in (or assembled through) locals is found as well."""
+    from ..core.astutil import resolve_local
     mod = fn.module
-    local_compiled = {}
     uses = []
-    for node in walk_no_nested(fn.node):
-        if isinstance(node, ast.Assign) and len(node.targets) == 1 and isinstance(node.targets[0], ast.Name) \
-                and isinstance(node.value, ast.Call) and call_name(node.value) == "re.compile":
-            v = _fold(folder, mod, node.value)
-            if isinstance(v, RegexConst):
-                local_compiled[node.targets[0].id] = v
     for node in walk_no_nested(fn.node):
         if not isinstance(node, ast.Call) or not isinstance(node.func, ast.Attribute):
             continue
         meth = node.func.attr
         if meth not in RE_FUNCS:
             continue
-        recv = node.func.value
-        if isinstance(recv, ast.Name) and recv.id == "re":
+        recv0 = node.func.value
+        if isinstance(recv0, ast.Name) and recv0.id == "re":
             b = folder.index.resolve(mod, "re")
             if b is not None and b.kind == "external" and b.target == "re" and node.args:
-                p = _fold(folder, mod, node.args[0])
+                p = _fold(folder, mod, resolve_local(fn, node.args[0]))
                 if isinstance(p, str):
-                    uses.append(RegexUse(p, 0, meth, node, f"re.{meth}(literal)"))
+                    fl = 0
+                    if meth in ("search", "match", "fullmatch", "findall", "finditer") and len(node.args) > 2:
+                        f2 = _fold(folder, mod, resolve_local(fn, node.args[2]))
+                        fl = f2 if isinstance(f2, int) else 0
+                    for k in node.keywords:
+                        if k.arg == "flags":
+                            f2 = _fold(folder, mod, resolve_local(fn, k.value))
+                            fl = f2 if isinstance(f2, int) else 0
+                    uses.append(RegexUse(p, fl, meth, node, f"re.{meth}(pattern)"))
+                elif isinstance(p, RegexConst):
+                    uses.append(RegexUse(p.pattern, p.flags, meth, node, f"re.{meth}(compiled)"))
             continue
-        if isinstance(recv, ast.Name) and recv.id in local_compiled:
-            rc = local_compiled[recv.id]
-            uses.append(RegexUse(rc.pattern, rc.flags, meth, node, f"local {recv.id}"))
-            continue
+        recv = resolve_local(fn, recv0)
         if isinstance(recv, ast.Call) and call_name(recv) == "re.compile":
             rc = _fold(folder, mod, recv)
             if isinstance(rc, RegexConst):
-                uses.append(RegexUse(rc.pattern, rc.flags, meth, node, "inline re.compile"))
+                via = f"local {recv0.id}" if isinstance(recv0, ast.Name) else "inline re.compile"
+                uses.append(RegexUse(rc.pattern, rc.flags, meth, node, via))
             continue
         if isinstance(recv, ast.Name):
             b = folder.index.resolve(mod, recv.id)
@@ -63,6 +67,14 @@ def regex_uses(fn, folder):
                 v = folder.try_value(b.module, b.name)
                 if isinstance(v, RegexConst):
                     uses.append(RegexUse(v.pattern, v.flags, meth, node, f"{b.module.name}.{b.name}"))
+            continue
+        if isinstance(recv, ast.Attribute) and isinstance(recv.value, ast.Name) and recv.value.id in ("self", "cls") \
+                and getattr(fn, "cls", None) is not None:
+            c, v = fn.cls.find_class_attr(recv.attr)
+            if c is not None:
+                rc = _fold(folder, c.module, v)
+                if isinstance(rc, RegexConst):
+                    uses.append(RegexUse(rc.pattern, rc.flags, meth, node, f"{c.name}.{recv.attr}"))
     return uses
 
 
